@@ -14,11 +14,14 @@ from common import REPO, Ctx, enc_text, exc_name
 PID = "C16"
 PROPS_MODULE = "NumbersModel.Props.C16"
 THEOREMS = [f"NumbersModel.Props.C16.{t}" for t in (
-    "sizes_fixed_point", "no_drift", "set_then_reload", "set_then_reload_api", "labels_preserved", "label_setters")]
+    "sizes_fixed_point", "no_drift", "set_then_reload", "set_then_reload_api", "labels_preserved", "label_setters",
+    # labels as _NumbersModel computes them from the stored objects (Model/DocTree.lean), after a reload from any file order
+    "labels_after_reload", "labels_after_reload_history")] + ["NumbersModel.DocTree.labels_perm", "NumbersModel.DocTree.allLabels_perm"]
 PARTIAL = {
-    "labels_protobuf_glue": "labels_preserved is proved about a model in which the labels are plain archive fields (names, visibility flags, caption storage text, header "
-                        "counts, position); that protobuf writes and reads those fields faithfully is assumed and exercised by "
-                        "the oracle on every history, not proved",
+    "labels_protobuf_glue": "labels_after_reload is about the object store: table model, the table info pointing at it, its caption object and "
+                        "that one's text storage, looked up as the code does, reloaded from any arrangement of the saved archives. What stays "
+                        "assumed is only that protobuf / snappy / zipfile write and read the individual fields faithfully (compared on every "
+                        "saved package by an independent reader in the document-tree stream, not proved)",
 }
 RULE = ("API-built documents (3..9 rows x 2..6 columns, optional second table at given coordinates) and fixture documents x a "
         "script over {row_height, col_width, header counts, table/sheet name, caption text, caption / name visibility} x 0..6 "
@@ -43,8 +46,12 @@ MANIFEST = {
             "sizes_fixed_point (what is read after save+reopen equals what was read before, for every row/column, set, "
             "queried or neither, any borders), no_drift (any number of cycles; stored headers stable from the first save; table "
             "height/width), set_then_reload (stored h - floor(a) reports h for all integers h, allowances a, denominators) and "
-            "set_then_reload_api (a size set through the API survives reload and later borders). Labels are plain archive "
-            "fields (labels_preserved is by construction; protobuf glue is exercised by the oracle only).",
+            "set_then_reload_api (a size set through the API survives reload and later borders). Labels: labels_preserved / label_setters "
+            "over plain archive fields, and labels_after_reload / labels_after_reload_history over Model/DocTree.lean (the object store as "
+            "the code keeps it: table_name, table_name_enabled, caption_enabled, caption_text incl. create_caption_archive, header counts, "
+            "table_coordinates read through table_info_id and the caption references): after any history, from the saved package or any "
+            "rearrangement of its members and archives, every table shows the same labels; tied by the document-tree stream of "
+            "checks/c19.py (live store vs model, saved package read independently, reopened rewritten layouts).",
     "note": "the pinned commit violated the property (unqueried row heights reset to default, +floor(allowance) per cycle, set "
             "sizes lost when a border is drawn); repaired by fixes/C16-*.patch; model mirrors the repaired code, pinned variants "
             "kept as counter-examples.",
@@ -608,11 +615,18 @@ def run(ctx: Ctx):
     ctx.correspond("row/column sizes over a history of sets, strokes, reads and save/reopen cycles (one line per axis)", sreq, sout,
                    keep=1, nontrivial=lambda r, o: False)
     ctx.correspond("labels over a history of setters and save/reopen cycles", lreq, lout, keep=1, nontrivial=lambda r, o: " C " in r)
+    # labels as computed from the object store (Model/DocTree.lean): live store vs model, saved package read independently,
+    # reopened from rewritten layouts; the stream lives in checks/c19.py
+    from checks import c19
+    c19.doctree_stream(ctx, n_hist=48 if ctx.quick else 600, foreign=True)
 
 
 def replay(data):
     warnings.simplefilter("ignore")
     i = data["input"]
+    if i.get("stream") == "doctree":
+        from checks import c19
+        return c19.replay_doctree(i)
     if "scenario" in i:
         r = scenario(i["scenario"])
         return {"scenario": i["scenario"], "result": "property holds" if r is None else {"signature": r[0], "what": r[1]}}
